@@ -25,7 +25,8 @@ type Step struct {
 type Case struct {
 	Kind string `json:"kind"` // history | geom
 	// history
-	Defs []string `json:"defs,omitempty"` // pool of definitions (PROJ.4 text or registered names)
+	Unbuildable bool     `json:"unbuildable,omitempty"` // some pool member parses but has no constructible projection
+	Defs        []string `json:"defs,omitempty"`        // pool of definitions (PROJ.4 text or registered names)
 	// Edited[d] / EditKind[d]: the definition with one parameter changed (x_0 + 1000, or another UTM zone) and which field
 	// that is; the history step "copyedit" makes a struct copy of the (possibly already used) SR, sets that exported field and
 	// uses the copy from then on - it must behave like a fresh parse of the edited text
@@ -106,9 +107,18 @@ func gen(t *rapid.T) Case {
 		if rapid.IntRange(0, 9).Draw(t, "named") == 0 {
 			s = rapid.SampledFrom([]string{"WGS84", "EPSG:4326", "EPSG:3857", "GOOGLE", "EPSG:4269"}).Draw(t, "name")
 		}
+		unbuildable := false
+		if len(c.Defs) > 0 && rapid.IntRange(0, 7).Draw(t, "unbuildable") == 0 {
+			// a definition that parses but whose projection cannot be constructed: every call of a transformer from or
+			// to it returns an error, the first call and every later one alike
+			s = rapid.SampledFrom([]string{"+proj=utm +ellps=WGS84", "+proj=utm +datum=NAD27", "+proj=lcc +lat_1=30 +lat_2=-30 +ellps=WGS84",
+				"+proj=aea +lat_1=30 +lat_2=-30 +ellps=GRS80 +towgs84=1,2,3", "+proj=stere +lat_0=90 +ellps=WGS84", "+proj=nosuchprojection +a=6378137 +b=6356752"}).Draw(t, "unb")
+			unbuildable = true
+			c.Unbuildable = true
+		}
 		c.Defs = append(c.Defs, s)
 		ek, ev, et := "", 0.0, ""
-		if s == d.String() {
+		if s == d.String() && !unbuildable {
 			switch d.Proj {
 			case "merc", "lcc", "aea", "eqdc", "tmerc":
 				e := d
@@ -283,6 +293,9 @@ func runHistory(c Case) (v vkit.Verdict) {
 	if c.Hop {
 		v.Class("wgs84_hop")
 	}
+	if c.Unbuildable {
+		v.Class("unbuildable_pool_member")
+	}
 	if c.Axis {
 		v.Class("non_enu_axis")
 	}
@@ -427,7 +440,7 @@ func TestProp(t *testing.T) {
 	vkit.Main(t, vkit.Spec[Case]{
 		ID: "C10",
 		Rule: "rapid, stateful: a pool of 2-4 spatial references (C08 definition generator with +axis values other than enu, named/explicit datums needing the WGS84 step, registered names such " +
-			"as EPSG:3857) whose usable regions share a position; a history of 2-30 steps: build a transformer between two pool members (sharing the parsed SR objects), call transformer i on point k (valid points of the shared region, and four inputs on which transformers tend to fail: the pole, latitude 120, 1e30 and NaN) " +
+			"as EPSG:3857; 1 member in 8 is a definition that parses but has no constructible projection - utm without zone, lcc/aea with opposite parallels, unknown projection name -, so every call through it must keep returning an error) whose usable regions share a position; a history of 2-30 steps: build a transformer between two pool members (sharing the parsed SR objects), call transformer i on point k (valid points of the shared region, and four inputs on which transformers tend to fail: the pole, latitude 120, 1e30 and NaN) " +
 			"(repeatedly, interleaved with other transformers), re-parse a definition, or replace a pool member by a struct copy of itself with one exported field edited (x_0 + 1000 or another UTM zone; from then on the slot stands for the edited definition). After every call the result (values to 1e-9 relative - rounding only -, NaN with NaN, and error-ness) must equal what a transformer freshly " +
 			"built from freshly parsed definitions returns on its first call; no panic. Geometry part: all eight types (nested collections, empty members) with a pure integer affine fake transformer that " +
 			"fails on the k-th vertex call or on a poisoned vertex, or a nil transformer: result has the same type and nesting (a *Bounds becomes its 4-corner polygon) with vertex i = t(vertex i), the " +
